@@ -20,7 +20,7 @@ def opHistogram (j : Json) : R Json := do
 
 /-- ops contributed by the component files -/
 def allOps : List (String × (Json → R Json)) :=
-  Jaqal.Emulator.ops ++ Jaqal.NumText.ops ++ Jaqal.UnitTiming.ops
+  Jaqal.Emulator.ops ++ Jaqal.NumText.ops ++ Jaqal.UnitTiming.ops ++ Jaqal.Walk.ops
 
 def dispatch (op : String) (j : Json) : R Json :=
   match op with
